@@ -826,6 +826,6 @@ def check(ctx):
                           "manager has more", ok)
 
     # ---- shared mechanisms: the neighbour's rules run as obligations of this property
-    ctx.include("C16", "C07.R9", only=['C16.R4'])
+    ctx.include("C16", "C07.R9", only=['C16.R4', 'C16.R1'])
     ctx.include("C12", "C07.R9", only=['C12.R3'])
-    ctx.rule("R9", "shared mechanisms, run as obligations of this property: the builder hands the engine the schedule (configs), and the chunk length, it validated (C16.R4); the history handed to tune is that epoch's recorded chain (C12.R3).")
+    ctx.rule("R9", "shared mechanisms, run as obligations of this property: the builder hands the engine the schedule (configs), and the chunk length, it validated (C16.R4); only valid epochs enter the schedule the kernels are driven by, and a rejected one leaves it unchanged (C16.R1); the history handed to tune is that epoch's recorded chain (C12.R3).")
